@@ -31,7 +31,7 @@ META = {
                   "correspondence through the real Constraint and Problem.__call__ (6 operators x thresholds x values incl. threshold, both float neighbours, far, +-inf "
                   "x 7 spellings x 1-4 constraints, all 256 separator characters, a malformed stream), evaluated in Coq by vm_compute, plus an oracle using Python's own "
                   "comparison operators.",
-    "level_note": "Theorems are about exact arithmetic in Q (delta = exact value of the double 0.0001); float rounding of x-y and +delta is not modelled.  The "
+    "level_note": "Tie/T11.v also states zero-iff-holds, positivity and non-negativity about the six violation functions GENERATED from the source text (tie_c11_generated_*). Theorems are about exact arithmetic in Q (delta = exact value of the double 0.0001); float rounding of x-y and +delta is not modelled.  The "
                   "correspondence compares zero-ness, sign and feasibility on every case, the magnitude exactly where the float result equals the exact rational result "
                   "(checked with fractions.Fraction, counted in the evidence) and within relative 2^-40 otherwise; binary64 overflow is not modelled either: an implementation "
                   "result +inf is accepted against a finite exact value >= 2^1024-2^970 (H11.close), which is how huge finite penalties whose sum overflows are compared.  float(token) is a section variable (Python's float, "
